@@ -48,12 +48,10 @@ def required_counters(tier):
         "preemptions_injected": 1000,
         "random.schedules": 100,
         "random.switches": 1000,
-        "stress.rounds": 1,
-        "shadow.get_events": 10000,
-        "windows.flatten_flag_true": 5,
-        "windows.treepath_set": 5,
-        "windows.context_open": 100,
-        "windows.rollback": 3,
+        "stress.rounds": 1, "random.schedules_in_copied_contexts": 20,
+        # (shadow.get_events and windows.* are white-box evidence: they are demanded in run_shard only
+        #  when the shadow monitor could attach - a refactored storage module must not make the
+        #  black-box arms inconclusive)
     }
 
 
@@ -299,8 +297,19 @@ def run_random(rec, seed, shard, tier):
         plans = [[(rng.choice(names), rng.randint(0, 3)) for _ in range(rng.choice((5, 10, 30)))] for _ in range(nthreads)]
         exp = [[ALL[n](k) for n, k in plan] for plan in plans]
         mk = lambda plan: (lambda: [ALL[n](k) for n, k in plan])
+        wls = [mk(p) for p in plans]
+        if s % 3 == 0:
+            # workers started the way asyncio.to_thread / executors do it: each runs inside a COPY of the
+            # parent's contextvars.Context, taken after the parent itself has used jaxtyped
+            import contextvars
+
+            op_block(0)
+            op_call(0)
+            copies = [contextvars.copy_context() for _ in wls]
+            wls = [(lambda c=c, w=w: c.run(w)) for c, w in zip(copies, wls)]
+            rec.count("random.schedules_in_copied_contexts")
         prng = random.Random(f"{seed}/C06/{shard['i']}/{s}/policy")
-        res, bat = SCH.run([mk(p) for p in plans], SCH.random_preempt(prng, rng.choice((0.02, 0.05, 0.2))), opcodes=(tier == "thorough" and s % 4 == 0))
+        res, bat = SCH.run(wls, SCH.random_preempt(prng, rng.choice((0.02, 0.05, 0.2))), opcodes=(tier == "thorough" and s % 4 == 0))
         rec.count("random.schedules")
         rec.count("random.switches", len(bat.switches))
         rec.count("preemptions_injected", len(bat.switches))
@@ -333,10 +342,16 @@ def run_stress(rec, seed, shard, tier):
     out = [None] * nthreads
     start = threading.Barrier(nthreads)
 
+    import contextvars
+
+    op_block(0)
+    parent_ctx = [contextvars.copy_context() for _ in range(nthreads)]
+
     def w(i):
         start.wait()
         try:
-            out[i] = [ALL[n](k) for n, k in plans[i]]
+            body = lambda: [ALL[n](k) for n, k in plans[i]]
+            out[i] = parent_ctx[i].run(body) if i % 2 else body()
         except BaseException as e:  # noqa
             out[i] = f"{type(e).__name__}: {e}"
 
@@ -405,6 +420,8 @@ def run_shard(rec, seed, shard, tier):
     if shard["i"] in (1, 2):
         run_stress(rec, seed, shard, tier)
     rec.count("shadow.get_events", shadowstore.counters["get_shape"] + shadowstore.counters["get_flat"] + shadowstore.counters["get_path"])
+    if att and shadowstore.counters["get_shape"] == 0:
+        rec.inconclusive.append("shadow store attached but saw no get_shape_memo event")
     rec.sample({"single_preemption": ["qtree", "wrong_dtype", "k=1..K"], "random": {"threads": 3, "p": 0.05}})
 
 
